@@ -436,7 +436,10 @@ def run_batch(rig, cases, stats, failing):
     pre = common.run_model("c09http", [line(rig, d, sd, None, [[0], False]) for (_l, d, sd) in cases])
     waits = [unsx(o)[0][0] == [4] for o in pre]
     obs, recs = [], []
-    for (label, data, sd), w in zip(cases, waits):
+    todo = [(c, w, 0) for c, w in zip(cases, waits)]
+    cases = []
+    while todo:
+        (label, data, sd), w, attempt = todo.pop(0)
         raw, closed, me, t_close = exchange(rig.port, data, sd, 0.15 if w else 2.5)
         rec = None
         for _ in range(100 if closed else 1):
@@ -449,7 +452,22 @@ def run_batch(rig, cases, stats, failing):
         # the server closed first (closed=True): everything it logged counts; otherwise only what it
         # logged before the client went away
         internal = any(closed or t < t_close for (_n, t) in ((rec["exc"] if rec else []) + list(_STRAY)))
+        if internal and len(stats.setdefault("http_exception_records_seen", [])) < 20:
+            stats["http_exception_records_seen"].append(
+                {"request": repr(data[:60]), "server_closed_first": closed,
+                 "own_thread": [(n, round(t - t_close, 4)) for (n, t) in (rec["exc"] if rec else [])],
+                 "stray": [(n, round(t - t_close, 4)) for (n, t) in _STRAY]})
+        own = any(closed or t < t_close for (_n, t) in (rec["exc"] if rec else []))
         del _STRAY[:]
+        if internal and not own and attempt < 2:
+            # an exception record of a thread that is not this connection's (a late record of an earlier connection
+            # on a loaded machine): it cannot be attributed to these bytes by time alone - ask again; what the
+            # client's bytes cause is reproducible
+            stats["http_unattributed_records_retried"] = stats.get("http_unattributed_records_retried", 0) + 1
+            time.sleep(0.3)
+            todo.insert(0, ((label, data, sd), w, attempt + 1))
+            continue
+        cases.append((label, data, sd))
         obs.append([o, internal])
         recs.append(rec)
         stats["http_probes"] += 1
